@@ -46,7 +46,10 @@ def run_tlc(module, cfg_text, wd, env=None, workers=1, heap="2g", extra=None, ti
     with os.fdopen(fd, "w") as f:
         f.write(cfg_text)
     meta = tempfile.mkdtemp(prefix="meta-", dir=wd)
-    cmd = ["java", "-Xmx" + heap, "-XX:+UseSerialGC" if workers == 1 else "-XX:+UseParallelGC",
+    # TLC unpacks its standard modules into a fresh directory under java.io.tmpdir on every start and leaves it there
+    # (thousands of /tmp/tlc-* after a day): keep them inside the run's own scratch directory, which is removed with it
+    jtmp = tempfile.mkdtemp(prefix="jtmp-", dir=wd)
+    cmd = ["java", "-Xmx" + heap, "-XX:+UseSerialGC" if workers == 1 else "-XX:+UseParallelGC", "-Djava.io.tmpdir=" + jtmp,
            "-DTLA-Library=" + SPEC, "-cp", CP, "tlc2.TLC",
            "-workers", str(workers), "-metadir", meta, "-noGenerateSpecTE", "-nowarning",
            "-config", cfg]
@@ -65,6 +68,7 @@ def run_tlc(module, cfg_text, wd, env=None, workers=1, heap="2g", extra=None, ti
         raise MachineryError("TLC timed out after %ss: %s" % (timeout, " ".join(cmd))) from ex
     finally:
         shutil.rmtree(meta, ignore_errors=True)
+        shutil.rmtree(jtmp, ignore_errors=True)
     return r.returncode, r.stdout + r.stderr
 
 
